@@ -114,6 +114,27 @@ def replay_index(cases, F, mon):
                         F.add("names", c, r.column_names(), ["a", "b b"], op="table slice", **info)
         elif c["suite"] == "mask":
             mask = c["mask"]
+            if n == 0 and not mask:
+                # the zero-length mask of the right length: a TYPED empty bool vector (e.g. the result of a
+                # comparison on an empty column) must select nothing from an empty vector / a zero-row table
+                from serif import DataType
+                base_t = Table({"a": [1, 2], "b b": ["x", "y"]})
+                for label, t0 in (("t[0:0]", base_t[0:0]), ("t[all-False mask]", base_t[[False, False]])):
+                    if not isinstance(t0, Table):
+                        continue
+                    for mlabel, m0 in (("comparison on an empty column", lambda: t0.cols()[0] > 5),
+                                       ("Vector([], dtype=bool)", lambda: Vector([], dtype=DataType(bool)))):
+                        st, r, ex = attempt(lambda: t0[m0()])
+                        executed += 1
+                        if st != "ok":
+                            F.add("table_rows", c, "raised " + type(ex).__name__ + ": " + str(ex)[:60], [], table=label, mask=mlabel, **info)
+                        elif isinstance(r, Table) and (len(r) != 0 or r.column_names() != ["a", "b b"]):
+                            F.add("table_rows", c, [len(r), r.column_names()], [0, ["a", "b b"]], table=label, mask=mlabel, **info)
+                        v0 = t0.cols()[0]
+                        st, r, ex = attempt(lambda: v0[m0()])
+                        executed += 1
+                        if st != "ok" or list(r) != []:
+                            F.add("mask", c, "raised " + type(ex).__name__ if st != "ok" else list(r), [], table=label, mask=mlabel, **info)
             for form in ("list", "vector"):
                 if form == "vector" and not mask:
                     continue
@@ -362,12 +383,16 @@ def close(a, b):
 
 def replay_na(cases, F, mon):
     executed = 0
-    tags = ["int", "float", "str", "date", "bool"]
+    tags = ["int", "float", "str", "date", "bool", "float_nan"]
     for n_case, c in enumerate(cases):
         n_case = c.get("_n", n_case)
         for tag in tags:
             pal = n_case % 3
-            conc = lambda x: None if x == -1 else (bool(x % 2) if tag == "bool" else A.concrete(tag, x, pal))   # noqa: E731
+            if tag == "float_nan":
+                # NaN and infinities are VALUES, not missing: only None is "na"
+                conc = lambda x: None if x == -1 else [float("nan"), float("inf"), 2.5, 7.0][x if x < 3 else 3]   # noqa: E731
+            else:
+                conc = lambda x: None if x == -1 else (bool(x % 2) if tag == "bool" else A.concrete(tag, x, pal))   # noqa: E731
             vals = [conc(x) for x in c["vals"]]
             if not vals:
                 continue
@@ -389,6 +414,8 @@ def replay_na(cases, F, mon):
             if st == "ok":
                 mon.see(r, "dropna")
             fillv = conc(7) if tag != "bool" else True
+            if tag == "float_nan":
+                fillv = 7.0
             expf = [fillv if x is None else x for x in vals]
             st, r, ex = attempt(lambda: v.fillna(fillv))
             if st != "ok" or not views_equal(list(r), expf):
@@ -437,7 +464,8 @@ def replay_na(cases, F, mon):
                         F.add("isna", c, list(r) if st == "ok" else type(ex).__name__, [False] * len(dvals), history=label, **info)
             # reductions skip None: equal Python's reduction of the None-free list
             clean = expd
-            reds = {"int": ["sum", "mean", "min", "max", "stdev", "any", "all"], "float": ["sum", "mean", "min", "max", "stdev", "any", "all"],
+            reds = {"float_nan": [],
+                    "int": ["sum", "mean", "min", "max", "stdev", "any", "all"], "float": ["sum", "mean", "min", "max", "stdev", "any", "all"],
                     "bool": ["sum", "any", "all", "min", "max"], "str": ["min", "max", "any", "all"], "date": ["min", "max"]}[tag]
             for red in reds:
                 st, r, ex = attempt(lambda: getattr(v, red)())
@@ -455,6 +483,10 @@ def replay_na(cases, F, mon):
                 elif not close(r, exp):
                     F.add("reduce_none", c, r, exp, red=red, **info)
             # scalar comparison: False wherever the element is None
+            if tag == "float_nan":
+                if not views_equal(before, vec_view(v)):
+                    F.add("operands_unchanged", c, "vector changed by a read-only operation", "unchanged", **info)
+                continue
             probe = conc(1) if tag != "bool" else True
             for opname, fn in (("eq", operator.eq), ("lt", operator.lt), ("ge", operator.ge), ("ne", operator.ne)):
                 exp = [False if x is None else bool(fn(x, probe)) for x in vals]
@@ -621,6 +653,26 @@ def replay_atype(cases, F, mon):
         forms = [lambda: v.__setitem__(slice(0, m), list(values))]
         if m == 1:
             forms = [lambda: v.__setitem__(0, values[0]), lambda: v.__setitem__([True, False, False], values[0])][n_case % 2: n_case % 2 + 1]
+        # ---- concatenation: v << values is typed by the left dtype promoted with EVERY appended value (C03, C04)
+        for label, mk in (("v << list", lambda: v << list(values)), ("v << Vector", lambda: v << Vector(list(values))),
+                          ("v << scalar", (lambda: v << values[0]) if m == 1 and not isinstance(values[0], (str, bytes, list, tuple, dict)) else None)):
+            if mk is None:
+                continue
+            if label == "v << Vector" and not nullable and A.dtype_abs(Vector(list(values)).schema()) is not None \
+                    and not Vector(list(values)).schema().nullable and Vector(list(values)).schema().kind is not py_kind:
+                continue          # two typesafe vectors of different kinds: << refuses (precondition of that form)
+            stc, rc, exc = attempt(mk)
+            executed += 1
+            if stc != "ok":
+                F.add("concat", c, label + " raised " + type(exc).__name__ + ": " + str(exc)[:60], "a longer vector", **info)
+                continue
+            if not views_equal(list(rc), list(base) + list(values)):
+                F.add("concat", c, [repr(x) for x in rc], [repr(x) for x in list(base) + list(values)], form=label, **info)
+            if A.dtype_abs(rc.schema()) != (c["rkind"], c["rnullable"]):
+                F.add("concat_dtype", c, A.dtype_abs(rc.schema()), [c["rkind"], c["rnullable"]], form=label, **info)
+            mon.see(rc, label, rule=False)
+        if not views_equal(before, vec_view(v)):
+            F.add("operands_unchanged", c, "<< changed its left operand", "unchanged", **info)
         st, _, ex = attempt(forms[0])
         executed += 1
         out = c["outcome"]
